@@ -4,6 +4,7 @@ import (
 	"fmt"
 	"math/big"
 	"sort"
+	"strings"
 	"time"
 
 	"github.com/kardiachain/go-kardia/lib/common"
@@ -17,6 +18,7 @@ type Step struct {
 	K    int    // mn: number of offered transactions of account A the new block contains
 	T    Tx     // ar al xr xl; first of ab
 	T2   Tx     // second of ab
+	Ts   []Tx   // bb bl: the whole batch
 	A    int    // rs: account
 	N    int    // rs: new state nonce
 	B    int64  // rs: new balance
@@ -35,6 +37,8 @@ func (st Step) label() []interface{} {
 		return []interface{}{st.Op, st.T.A, st.T.N, st.T.P, st.T.K}
 	case "ab":
 		return []interface{}{st.Op, st.T.tuple(), st.T2.tuple()}
+	case "bb", "bl":
+		return []interface{}{st.Op, tuples(st.Ts)}
 	case "rs":
 		return []interface{}{st.Op, st.A, st.N, st.B, st.G}
 	case "mn":
@@ -63,6 +67,26 @@ func (s *sut) apply(st Step) (res string) {
 	case "ab":
 		errs := s.pool.AddRemotesSync([]*types.Transaction{s.w.tx(st.T), s.w.tx(st.T2)})
 		return classify(errs[0]) + "+" + classify(errs[1])
+	case "bb", "bl":
+		// a whole batch in ONE call; the answer is the error vector, slot by slot
+		txs := make([]*types.Transaction, len(st.Ts))
+		for i, t := range st.Ts {
+			txs[i] = s.w.tx(t)
+		}
+		var errs []error
+		if st.Op == "bb" {
+			errs = s.pool.AddRemotesSync(txs)
+		} else {
+			errs = s.pool.AddLocals(txs)
+		}
+		if len(errs) != len(txs) {
+			return fmt.Sprintf("ERR:%d results for %d transactions", len(errs), len(txs))
+		}
+		parts := make([]string, len(errs))
+		for i, e := range errs {
+			parts[i] = classify(e)
+		}
+		return strings.Join(parts, "+")
 	case "xr", "xl":
 		// AddLocals passes !NoLocals as the local flag; addTxs then requests a run of the reorg loop
 		s.owed = true
@@ -342,8 +366,8 @@ func (s *sut) statement(o, prev *Obs, st Step, got string, full bool) []finding 
 				// cause "pool-full": the pool-full branch of add() may evict the very transaction the new one
 				// competes with before the price bump is tested (known deviation); anything else is new
 				cause := ""
-				if isAdd(op) || op == "ab" {
-					if fullBefore(prev, s.c, st.T, st.T2) {
+				if isAdd(op) || op == "ab" || op == "bb" || op == "bl" {
+					if fullBefore(prev, s.c, append([]Tx{st.T, st.T2}, st.Ts...)...) {
 						cause = ":pool-full"
 					}
 				}
@@ -419,12 +443,16 @@ func (s *sut) statement(o, prev *Obs, st Step, got string, full bool) []finding 
 			senders[st.T.A] = true
 		case "ab":
 			senders[st.T.A], senders[st.T2.A] = true, true
+		case "bb", "bl":
+			for _, t := range st.Ts {
+				senders[t.A] = true
+			}
 		}
 		cause := func(a int) string {
 			switch {
 			case op == "rs" || op == "mn" || op == "ro":
 				return "reset-demotion"
-			case op == "gp", (op == "ar" || op == "al" || op == "ab") && a != 0 && !senders[a]:
+			case op == "gp", (op == "ar" || op == "al" || op == "ab" || op == "bb" || op == "bl") && a != 0 && !senders[a]:
 				return "removal-demotion"
 			}
 			return "after-" + op
